@@ -7,8 +7,10 @@
 // ASSUME: BulkSynchronous: no push after a pop that returned empty (its isEmpty flag is sticky by design; with one worker and no abort-retries the executor never pushes after an empty pop; the combination with abort-retries is listed outside the bounds in DESIGN.md section 4 item 14)
 // ASSUME: GFIFO/GLIFO (Wrapper over gdeque) have no range push: Wrapper::push(Iter,Iter) calls container.insert(end,b,e), which galois::gdeque does not provide (it does not compile when instantiated), so only push(v)/pop are exercised there
 // OB: ob_wl_simple tier=quick solver=cadical unwind=20 timeout=600 params=4 bounds="GFIFO<int>, GLIFO<int> (Wrapper over gdeque; range pushes split into single pushes), FIFO<int>, LIFO<int> (Wrapper over std::deque; push_initial + push(v) + push(range of 2) + pop), one after the other in each query, without the per-thread-storage environment (not used by them): 4 kind sequences of 5..6 ops (table SEQ_I); values symbolic in 0..3"
-// OB: ob_wl_bulksync tier=quick solver=cadical unwind=32 timeout=600 cbmc="--max-field-sensitivity-array-size 600" params=5 bounds="BulkSynchronous<ChunkFIFO<2>,int,true> and BulkSynchronous<PerSocketChunkLIFO<2>,int,true>, 1 thread, the real CountingBarrier(1): 5 kind sequences (table SEQ_BS) of up to 7 ops: push_initial(range of 2 or 0) first, then {push(v), push(range of 2), pop} with no push after an empty pop" desc="work conservation, one worker, across round flips"
-// OB: ob_wl_composite tier=quick solver=cadical unwind=32 timeout=600 cbmc="--max-field-sensitivity-array-size 600" params=4 bounds="LocalQueue<NoGlobalQueue,GFIFO> (single pushes), LocalQueue<ChunkFIFO<2>,ChunkLIFO<2>>, OwnerComputes<DummyIndexer,ChunkLIFO<2>>, StableIterator<false|true,PerSocketChunkFIFO<2>,int*>, one after the other in each query; 1 thread; 4 kind sequences (table SEQ_I): push_initial(range of 2 or 0) first, then {push(v), push(range of 2), pop}" desc="work conservation, one worker: initial range and pushed items all come back exactly once; an empty pop means nothing is pending"
+// OB: ob_wl_bulksync tier=quick solver=cadical unwind=32 timeout=600 cbmc="--max-field-sensitivity-array-size 600" params=4 bounds="BulkSynchronous<ChunkFIFO<2>,int,true> and BulkSynchronous<PerSocketChunkLIFO<2>,int,true>, 1 thread, the real CountingBarrier(1): 4 kind sequences (table SEQ_BS) of up to 7 ops: push_initial(range of 2 or 0) first, then {push(v), push(range of 2), pop} with no push after an empty pop" desc="work conservation, one worker, across round flips"
+// OB: ob_wl_composite_rows tier=thorough solver=cadical unwind=32 timeout=600 cbmc="--max-field-sensitivity-array-size 600" params=4 bounds="as ob_wl_composite, all 4 rows of SEQ_I" desc="work conservation, one worker"
+// OB: ob_wl_bulksync_rows tier=thorough solver=cadical unwind=32 timeout=600 cbmc="--max-field-sensitivity-array-size 600" params=5 bounds="as ob_wl_bulksync, all 5 rows of SEQ_BS" desc="work conservation, one worker, across round flips"
+// OB: ob_wl_composite tier=quick solver=cadical unwind=32 timeout=600 cbmc="--max-field-sensitivity-array-size 600" params=3 bounds="LocalQueue<NoGlobalQueue,GFIFO> (single pushes), LocalQueue<ChunkFIFO<2>,ChunkLIFO<2>>, OwnerComputes<DummyIndexer,ChunkLIFO<2>>, StableIterator<false|true,PerSocketChunkFIFO<2>,int*>, one after the other in each query; 1 thread; 3 kind sequences (table SEQ_I rows 0-2): push_initial(range of 2 or 0) first, then {push(v), push(range of 2), pop}" desc="work conservation, one worker: initial range and pushed items all come back exactly once; an empty pop means nothing is pending"
 #include "C01_wl_common.h"
 #include "galois/worklists/Chunk.h"
 #include "galois/worklists/Simple.h"
@@ -124,25 +126,29 @@ OB(wl_simple) {
   c01::run_row<FIFO<int>, c01::OpsI<FIFO<int>>>(s);
   c01::run_row<LIFO<int>, c01::OpsI<LIFO<int>>>(s);
 }
-OB(wl_composite) {
+static void composite_row(unsigned row) {
   typedef LocalQueue<NoGlobalQueue<>, GFIFO<int>, int> LQ0;
   typedef LocalQueue<ChunkFIFO<2>, ChunkLIFO<2>, int> LQ1;
   typedef OwnerComputes<DummyIndexer<int>, ChunkLIFO<2>, int> OC;
   typedef StableIterator<false, PerSocketChunkFIFO<2>, int*> S0;
   typedef StableIterator<true, PerSocketChunkFIFO<2>, int*> S1;
   c01::configure(0);
-  const unsigned char* s = c01::SEQ_I[vf_param(0) < 4 ? vf_param(0) : 0];
+  const unsigned char* s = c01::SEQ_I[row < 4 ? row : 0];
   c01::run_row<LQ0, c01::OpsI<LQ0, false>>(s);
   c01::run_row<LQ1, c01::OpsI<LQ1>>(s);
   c01::run_row<OC, c01::OpsI<OC>>(s);
   c01::run_row<S0, c01::OpsI<S0>>(s);
   c01::run_row<S1, c01::OpsI<S1>>(s);
 }
-OB(wl_bulksync) {
+static void bulksync_row(unsigned row) {
   typedef BulkSynchronous<ChunkFIFO<2>, int, true> BS;
   typedef BulkSynchronous<PerSocketChunkLIFO<2>, int, true> BS2;
   c01::configure(0);
-  const unsigned char* s = c01::SEQ_BS[vf_param(0) < 5 ? vf_param(0) : 0];
+  const unsigned char* s = c01::SEQ_BS[row < 5 ? row : 0];
   c01::run_row<BS, c01::OpsBS<BS>>(s);
   c01::run_row<BS2, c01::OpsBS<BS2>>(s);
 }
+OB(wl_composite) { composite_row(vf_param(0)); }
+OB(wl_composite_rows) { composite_row(vf_param(0)); }
+OB(wl_bulksync) { bulksync_row(vf_param(0)); }
+OB(wl_bulksync_rows) { bulksync_row(vf_param(0)); }
